@@ -181,6 +181,13 @@ def check_backward(case, ctx):
         b, m, rg = fresh()
         outs = [o * float("inf") if k == 0 else o for k, o in enumerate(b.outputs)]  # the Jacobian of the first tensor is +-inf / nan
         a = aggs.make({"name": "TrimmedMean", "b": 0} if name == "TrimmedMean0" else {"name": name}, torch.float64)
+        # the call is invalid only if the non-finite factor REACHES the Jacobian: an output whose derivative is exactly zero along
+        # every path (relu of a negative leaf, a leaf not requiring grad) gives an all-zero, valid Jacobian (false alarm, thorough seed 14)
+        probe = torch.autograd.grad(outs[0].sum(), rg, retain_graph=True, allow_unused=True) if rg and outs[0].requires_grad else ()
+        if not any(g is not None and not bool(torch.isfinite(g).all()) for g in probe):
+            ctx.count("unjudged:nonfinite_factor_does_not_reach_the_jacobian")
+            continue
+        ctx.count("w_nonfinite_jacobian_confirmed_by_autograd")
         _attempt(lambda: backward(outs, a, inputs=rg), b.leaves, ctx, "backward/aggregator_rejects_nonfinite", slim, {"aggregator": name})
         n_eval += 1
     ctx.evaluated(n=n_eval)
